@@ -414,7 +414,7 @@ def sym_field(items, name, off, size):
     return SInt(z3.ZeroExt(W - 8 * size, e), 0, (1 << (8 * size)) - 1)
 
 
-LOCALES = [0, loc('de'), loc('en-rUS'), loc('fil'), loc('zh-rTW'), loc('es-r419')]
+LOCALES = [0, loc('de'), loc('en-rUS'), loc('fil'), loc('zh-rTW'), loc('es-r419'), loc('ceb'), loc('yue-rHK'), loc('mni')]
 
 
 def groups_of(T, L):
